@@ -22,7 +22,30 @@ def unhx(s: str) -> bytes:
 
 
 # ----------------------------------------------------------------------------- drivers
+LINE_RETRIES = [2]
+
+
 def run_lines(exe, lines, timeout=600, env=None, per_line_timeout=None, stall=None):
+    """_run_lines, and: a line that got no answer in time is asked once more, alone, with six times the limit (at most LINE_RETRIES[0]
+    times per check) before 'HANG' stands - a busy machine is not a hanging program."""
+    out = _run_lines(exe, lines, timeout, env, per_line_timeout, stall)
+    for k, r in enumerate(out):
+        if r == "HANG" and LINE_RETRIES[0] > 0:
+            LINE_RETRIES[0] -= 1
+            st = 6 * (stall or per_line_timeout or 90)
+            again = _run_lines(exe, [lines[k]], max(timeout, st), env, None, st)
+            if again and again[0] != "HANG":
+                out[k] = again[0]
+                # the lines skipped behind an abandoned one get their turn as well
+                rest = [j for j in range(k + 1, len(out)) if out[j].startswith("HANG:")]
+                if rest:
+                    more = _run_lines(exe, [lines[j] for j in rest], timeout, env, per_line_timeout, stall)
+                    for j, m_ in zip(rest, more):
+                        out[j] = m_
+    return out
+
+
+def _run_lines(exe, lines, timeout=600, env=None, per_line_timeout=None, stall=None):
     """Feed `lines` (list of str) to a line-protocol driver; return list of output lines,
     one per input line.  If the driver dies (sanitizer abort, signal) on line k, that line's
     result is 'SAN:<kind>' / 'CRASH:<sig>' and the driver is restarted on the rest.  If it produces
